@@ -1,4 +1,103 @@
+//! fv-logx: drivers that run the real fibre_logging code and record histories for TLC.
+//!
+//!   route-inproc  routing matrix of many configurations inside one process (verif::Router)
+//!   e2e           child processes: init_from_file + log/tracing macros + shutdown, read back
+//!   child         (internal) one e2e child
+//!   roller        CustomRoller with an injected clock in a temp directory
+//!   enc-json      JSON-lines encoder over class-enumerated inputs (oracle: serde_json)
+//!   enc-pattern   pattern encoder over a directive grammar
+
+mod e2e;
+mod enc;
+mod roller;
+mod route;
+
+use std::collections::HashMap;
+
+pub struct Args(HashMap<String, String>);
+impl Args {
+  fn parse(it: impl Iterator<Item = String>) -> Args {
+    let mut m = HashMap::new();
+    let v: Vec<String> = it.collect();
+    let mut i = 0;
+    while i < v.len() {
+      if let Some(k) = v[i].strip_prefix("--") {
+        let val = if i + 1 < v.len() && !v[i + 1].starts_with("--") {
+          i += 1;
+          v[i].clone()
+        } else {
+          "1".into()
+        };
+        m.insert(k.to_string(), val);
+      }
+      i += 1;
+    }
+    Args(m)
+  }
+  pub fn get(&self, k: &str, d: &str) -> String {
+    self.0.get(k).cloned().unwrap_or_else(|| d.to_string())
+  }
+  pub fn has(&self, k: &str) -> bool {
+    self.0.contains_key(k)
+  }
+  pub fn num(&self, k: &str, d: u64) -> u64 {
+    self.0.get(k).map(|s| s.parse().expect("number")).unwrap_or(d)
+  }
+  pub fn list(&self, k: &str, d: &str) -> Vec<String> {
+    self.get(k, d).split(',').filter(|s| !s.is_empty()).map(|s| s.to_string()).collect()
+  }
+}
+
+/// splitmix64: the only random source of the drivers (deterministic given the seed).
+pub struct Rng(pub u64);
+impl Rng {
+  pub fn new(seed: u64) -> Rng {
+    Rng(seed.wrapping_mul(0x9E37_79B9_7F4A_7C15).wrapping_add(0x1234_5678_9ABC_DEF1))
+  }
+  pub fn next(&mut self) -> u64 {
+    self.0 = self.0.wrapping_add(0x9E37_79B9_7F4A_7C15);
+    let mut z = self.0;
+    z = (z ^ (z >> 30)).wrapping_mul(0xBF58_476D_1CE4_E5B9);
+    z = (z ^ (z >> 27)).wrapping_mul(0x94D0_49BB_1331_11EB);
+    z ^ (z >> 31)
+  }
+  pub fn below(&mut self, n: u64) -> u64 {
+    if n == 0 { 0 } else { self.next() % n }
+  }
+  pub fn chance(&mut self, num: u64, den: u64) -> bool {
+    self.below(den) < num
+  }
+  pub fn pick<'a, T>(&mut self, v: &'a [T]) -> &'a T {
+    &v[self.below(v.len() as u64) as usize]
+  }
+}
+
+pub fn panic_msg(e: Box<dyn std::any::Any + Send>) -> String {
+  if let Some(s) = e.downcast_ref::<String>() {
+    s.clone()
+  } else if let Some(s) = e.downcast_ref::<&str>() {
+    s.to_string()
+  } else {
+    "panic".into()
+  }
+}
+
 fn main() {
-  eprintln!("fv-logx: not built yet");
-  std::process::exit(2);
+  let mut it = std::env::args().skip(1);
+  let cmd = it.next().unwrap_or_default();
+  let args = Args::parse(it);
+  // a panic inside library code is data: keep the default hook quiet
+  std::panic::set_hook(Box::new(|_| {}));
+  match cmd.as_str() {
+    "route-inproc" => route::run(&args),
+    "e2e" => e2e::parent(&args),
+    "child" => e2e::child(&args),
+    "roller" => roller::run(&args),
+    "enc-json" => enc::run_json(&args),
+    "enc-pattern" => enc::run_pattern(&args),
+    _ => {
+      eprintln!("usage: fv-logx <route-inproc|e2e|roller|enc-json|enc-pattern> [--key value]...");
+      std::process::exit(2);
+    }
+  }
 }
